@@ -25,7 +25,8 @@ META = dict(
            "the numba definition of findap is compiled from the `else:` branch of cyclecount.py's AST with numba_bool = bool (numba is not installed)"],
     outside=["G1, G2, G4, G8, G12 and the damage-equivalent PSD formulas of fdepsd (logs, roots, argmax of tangents)", "scaling with input amplitude squared",
              "detrend / filter / rolloff options of fdepsd", "pandas labelling of binify"],
-    assumptions=["signal samples in [-100, 100]; tol concrete (1e-6, and 0.25 to make sub-tolerance regions large)"],
+    assumptions=["signal samples in [-100, 100]; tol concrete (1e-6, 0, and 0.25 to make sub-tolerance regions large)",
+                 "_dofde kernel: the response has no non-zero step below findap's tolerance (that region belongs to the recorded findap findings)"],
     reach_required=["findap-plateau", "findap-alternating", "findap-subtol-step", "binify-auto", "binify-explicit-outside", "binify-right", "binify-left", "dofde"],
     trusted_base=["z3 5.1", "CPython 3.12", "NumPy array semantics on dtype=object"],
 )
@@ -379,7 +380,13 @@ def dofde_fn(N, nbins):
         def rainflow(peaks, getoffsets=False, use_pandas=True):
             rf, os_ = rain2(np.asarray(peaks, dtype=object), len(peaks))
             return dict(amp=rf[:, 0], mean=rf[:, 1], count=rf[:, 2])
-        ccshim = types.SimpleNamespace(findap=lambda y, tol=1e-6: np.array(sym["default"](y, 0.0)), rainflow=rainflow)
+        # precondition: no non-zero sub-tolerance step (the region of the recorded findap findings)
+        dd = [rs[i + 1] - rs[i] for i in range(N - 1)]
+        md = z3.RealVal(0)
+        for t_ in dd:
+            md = z3.If(_absz(t_) > md, _absz(t_), md)
+        eng.assume(z3.And([z3.Or(t_ == 0, _absz(t_) > md * z3.RealVal(Fraction(1e-6))) for t_ in dd]))
+        ccshim = types.SimpleNamespace(findap=lambda y, tol=1e-6: np.array(sym["default"](y, tol)), rainflow=rainflow)
         sig = types.SimpleNamespace(lfilter=lambda b, a, x: resp)
         ASV = np.zeros((3, 1), dtype=object)
         BinAmps = np.zeros((1, nbins), dtype=object)
